@@ -198,6 +198,11 @@ def impl_build(m):
     raise ValueError(k)
 
 
+def hx_(x):
+    from engines.broker import hx
+    return hx(x)
+
+
 def b_(x):
     return x.encode('utf-8') if isinstance(x, str) else bytes(x)
 
@@ -218,6 +223,35 @@ def impl_read(op, body):
     except (TypeError, UnicodeDecodeError) as e:
         return 'crash ' + type(e).__name__
     return 'msg %s %s' % (m[0], ' '.join(hexf(b_(x)) for x in m[1:]))
+
+
+
+def side_rng(rng, tag):
+    """an independent generator derived from the main one WITHOUT consuming it (older pinned inputs keep reproducing)"""
+    st = rng.getstate()[1]
+    return random.Random('%s|%s|%s' % (tag, st[-1], st[:3]))      # st[-1] = position in the Mersenne state
+
+
+def mk_prelude(rng):
+    """bytes a decoder saw on an EARLIER connection before `reset()`: a complete frame or none, then a frame whose header
+    is complete and whose body is not (the state in which hpfeeds.client.Client resets its decoder after a drop)"""
+    body = bytes(rng.getrandbits(8) for _ in range(rng.choice([1, 7, 40, 300])))
+    op = rng.choice([0, 1, 3, 3, 4])
+    full = enc(op, body)
+    keep = rng.choice([5, 5, 6, max(5, len(full) - 1), rng.randint(5, len(full) - 1)])
+    pre = [enc(4, b'\x01a' + b'ch')] if rng.random() < 0.3 else []
+    return pre + [full[:keep]]
+
+
+def fresh_decoder(prelude):
+    """a new Unpacker, or - with a prelude - one that was fed those chunks (drained after each) and then reset():
+    from then on it must behave exactly like a new one"""
+    u = P.Unpacker()
+    if prelude:
+        for ch in prelude:
+            impl_feed(u, ch)
+        u.reset()
+    return u
 
 
 # ---------------------------------------------------------------- sections
@@ -252,8 +286,11 @@ def sec_roundtrip(res, drv, rng, tier, n):
             b = impl_build(m_in)
             b = bytes(b)
             impl = 'bytes ' + hexf(b)
-        except struct.error:
+        except Exception as e:
+            # WHICH exception a builder raises for an over-long field is not part of any property (struct.error today):
+            # any exception is the observation `raise`; raising for in-range fields is the C05 violation below
             b, impl = None, 'raise'
+            res.note('roundtrip.raise.' + type(e).__name__)
         res.note('roundtrip.' + m[0] + ('.raise' if b is None else ''))
         if drv is not None:
             model = drv.ask(model_build_line(m))
@@ -266,7 +303,14 @@ def sec_roundtrip(res, drv, rng, tier, n):
         # monitor C05: header == len, decoder yields exactly one frame, reader returns the fields
         if int.from_bytes(b[0:4], 'big') != len(b):
             res.violation('C05', 'length-header', 'length header %d != %d bytes produced' % (int.from_bytes(b[0:4], 'big'), len(b)), script)
-        u = P.Unpacker()
+        prelude = globals().get('_FORCED_PRELUDE')
+        if prelude is None:
+            pr = side_rng(rng, 'rt-prelude')
+            prelude = [hexin(c) for c in mk_prelude(pr)] if pr.random() < 0.2 else []
+        if prelude:
+            script['prelude'] = prelude
+            res.note('roundtrip.after-reset')
+        u = fresh_decoder([hx_(c) for c in prelude])
         frames, rest, err = impl_feed(u, b)
         in_range = len(b) <= FLOOR[b[4]] or (err == 'none' and len(frames) == 1)
         if in_range:
@@ -404,7 +448,7 @@ def run_chunked(res, drv, frames, tail, chunks, script, check_prompt=True):
 
 def _run_chunked(res, drv, frames, tail, chunks, script, check_prompt=True):
     res.evaluations += 1
-    u = P.Unpacker()
+    u = fresh_decoder([hx_(c) for c in script.get('prelude', [])])
     got = []
     fed = 0
     ends = []
@@ -463,6 +507,18 @@ def sec_chunking(res, drv, rng, tier, n):
                 exhaustive += 1
             res.nontriv(['exh', [[op, b.hex()] for op, b in fs], tail.hex()])
     res.note('chunking.exhaustive-patterns', exhaustive)
+    # bursts: MANY complete small frames available in ONE feed (a coalesced read after a stall): each must be yielded by
+    # the drain that follows that feed - 129 ... several thousand, beyond any per-pass batch size
+    pb = side_rng(rng, 'burst')
+    for count in ([129, 257, 1000] if tier == 'quick' else [129, 200, 257, 513, 1025, 4097, 20000]):
+        fs = [pb.choice([(3, b'\x01a\x01c' + bytes([i & 255])), (0, b'e'), (4, b'\x01ac'), (3, b'')]) for i in range(count)]
+        tail = pb.choice([b'', b'\x00\x00', b'\x00\x00\x00\x09\x03'])
+        stream = b''.join(enc(op, b) for op, b in fs) + tail
+        for cuts in ([], [len(stream) - len(tail) - 1] if len(stream) - len(tail) > 1 else [], [7]):
+            script = {'section': 'chunking', 'frames': [[op, hexin(b)] for op, b in fs], 'tail': hexin(tail), 'cuts': cuts, 'mode': 'burst-%d' % count}
+            run_chunked(res, drv, fs, tail, cut(stream, cuts), script)
+        res.note('chunking.burst')
+        res.nontriv(['burst', count, len(stream)])
     # long streams (several MiB, several big frames per chunk, coarse chunks)
     for k in range({'quick': 2, 'thorough': 10}[tier]):
         fs = small_frames(rng)
@@ -529,6 +585,11 @@ def sec_chunking(res, drv, rng, tier, n):
                 chunks.insert(rng.randint(0, len(chunks)), b'')
         script = {'section': 'chunking', 'frames': [[op, hexin(b)] for op, b in fs], 'tail': hexin(tail), 'cuts': cuts, 'mode': mode,
                   'api': rng.choice(['iter', 'iter', 'ready-pop', 'unpack', 'next']), 'feed': rng.choice(['bytes', 'bytes', 'bytearray', 'reused', 'memoryview'])}
+        pr = side_rng(rng, 'ch-prelude')
+        if pr.random() < 0.25:
+            # the decoder has a history: it was fed part of a frame on an earlier connection and then reset()
+            script['prelude'] = [hexin(c) for c in mk_prelude(pr)]
+            res.note('chunking.after-reset')
         run_chunked(res, drv, fs, tail, chunks, script)
         res.note('chunking.' + mode)
         res.note('chunking.api.' + script['api'])
@@ -558,6 +619,13 @@ def sec_lattice(res, drv, rng, tier, n):
                     script = {'section': 'lattice', 'op': op, 'ml': ml, 'follow': hexin(f), 'chunks': [hexin(c) for c in chunks]}
                     run_arbitrary(res, drv, chunks, script)
                     count += 1
+            # the same header on a decoder with a history (fed the beginning of a valid frame, then reset()): the verdict on
+            # a header must not depend on what an earlier connection left behind
+            pl = side_rng(rng, 'lat-prelude-%d-%d' % (op, ml))
+            script = {'section': 'lattice', 'op': op, 'ml': ml, 'follow': hexin(fol[-1]), 'chunks': [hexin(hdr + fol[-1])],
+                      'prelude': [hexin(c) for c in mk_prelude(pl)]}
+            run_arbitrary(res, drv, [hdr + fol[-1]], script)
+            count += 1
             res.nontriv(['lat', op, ml])
     # the same boundary headers BEHIND complete valid frames on the same decoder: the verdict on a header must not
     # depend on what was decoded before it (a per-opcode limit remembered from the previous frame)
@@ -614,7 +682,7 @@ def run_arbitrary(res, drv, chunks, script):
 
 def _run_arbitrary(res, drv, chunks, script):
     res.evaluations += 1
-    u = P.Unpacker()
+    u = fresh_decoder([hx_(c) for c in script.get('prelude', [])])
     lines, impl_lines = ['c.reset'], []
     total = b''
     consumed = 0
@@ -795,8 +863,10 @@ def replay(script, drv):
         try:
             globals()['gen_msg'] = lambda *_a, **_k: m
             globals()['_FORCED_BINARY_AS'] = script.get('binary_as')
+            globals()['_FORCED_PRELUDE'] = script.get('prelude', [])
             sec_roundtrip(res, drv, rng, 'quick', 1)
         finally:
             globals()['gen_msg'] = orig
             globals()['_FORCED_BINARY_AS'] = None
+            globals()['_FORCED_PRELUDE'] = None
     return res
